@@ -123,7 +123,12 @@ impl core::fmt::Display for Tokenizer<'_, '_> {
                             write!(f, " !!! decoding error: {}", e)?;
                             return Ok(())
                         }
-                        None => continue
+                        None => {
+                            // An element was announced (by an array or map
+                            // length or by a tag) but the input has ended.
+                            write!(f, " !!! unexpected end of input")?;
+                            return Ok(())
+                        }
                     }
                     E::S(s) => f.write_str(s)?,
                     E::X(s) => match iter.peek() {
